@@ -5,6 +5,7 @@ import (
 
 	unixfsnode "github.com/ipfs/go-unixfsnode"
 	"github.com/ipfs/go-unixfsnode/data/builder"
+	"github.com/ipfs/go-unixfsnode/hamt"
 	"github.com/ipfs/go-unixfsnode/internal/verifmodel"
 	"github.com/ipfs/go-unixfsnode/internal/verifrt"
 	dagpb "github.com/ipld/go-codec-dagpb"
@@ -94,6 +95,95 @@ func VerifPathSymbolicSegment() {
 			b, err := matched[0].AsBytes()
 			verifrt.Assert(err == nil && len(b) == 1 && b[0] == want, "walk:file-match-carries-exact-bytes")
 		}
+	}
+	verifrt.Reach("end")
+}
+
+// VerifPathShardedProbe (C03): root{ "h": sharded directory with two entries (any
+// hashes: same or different buckets, one level of collision) } and the path
+// "h/<seg>", where <seg> is an entry's name, or a non-member with an ARBITRARY hash
+// (so it may be routed to an entry's bucket) that is unrelated to / a proper suffix
+// of / a proper prefix of / an extension of an entry's name: the walk matches
+// exactly the named file, or nothing.
+func VerifPathShardedProbe() {
+	lg := verifrt.Param("lg", 3)
+	maxDepth := 2
+	es, tab := makeEntries(2, lg, maxDepth, true)
+	probe := &hEntry{hash: verifrt.Bytes(8)}
+	variant := verifrt.Choose(5)
+	if verifrt.Native() {
+		switch variant {
+		case 0:
+			probe.name = verifmodel.FindName(99, probe.hash, maxDepth*lg)
+		case 4:
+			probe.name = es[0].name
+		default:
+			es[0].name, probe.name = verifmodel.FindRelatedNames(0, es[0].hash, probe.hash, maxDepth*lg, variant)
+		}
+	} else {
+		switch variant {
+		case 0:
+			probe.name = "zz"
+		case 1:
+			probe.name = es[0].name[1:]
+		case 2:
+			probe.name = es[0].name[:len(es[0].name)-1]
+		case 3:
+			probe.name = es[0].name + "q"
+		default:
+			probe.name = es[0].name
+		}
+		if variant != 4 {
+			tab.Set(probe.name, probe.hash)
+		}
+	}
+	st := verifmodel.NewStore()
+	ls := st.LinkSystem()
+	unixfsnode.AddUnixFSReificationToLinkSystem(ls)
+	contents := []byte{'B', 'C'}
+	for i, e := range es {
+		l, sz, err := builder.BuildUnixFSFile(bytes.NewReader(contents[i:i+1]), "size-1", ls)
+		verifrt.Assert(err == nil, "harness:build")
+		e.link, e.tsize = l, sz
+	}
+	lh, sh, err := builder.BuildUnixFSShardedDirectory(1<<uint(lg), hamt.HashMurmur3, entryLinks(es), ls)
+	verifrt.Assert(err == nil, "harness:build")
+	eh, _ := builder.BuildUnixFSDirectoryEntry("h", int64(sh), lh)
+	lr, _, err := builder.BuildUnixFSDirectory([]dagpb.PBLink{eh}, ls)
+	verifrt.Assert(err == nil, "harness:build")
+
+	var target selbuilder.SelectorSpec
+	switch verifrt.Choose(2) {
+	case 0:
+		target = unixfsnode.MatchUnixFSSelector
+	default:
+		target = unixfsnode.MatchUnixFSPreloadSelector
+	}
+	selNode := unixfsnode.UnixFSPathSelectorBuilder("h/"+probe.name, target, false)
+	sel, err := selector.CompileSelector(selNode)
+	verifrt.Assert(err == nil, "selector:compiles")
+	rootNode, err := ls.Load(ipld.LinkContext{}, lr, dagpb.Type.PBNode)
+	verifrt.Assert(err == nil, "harness:root-loads")
+	var matched []datamodel.Node
+	prog := traversal.Progress{Cfg: &traversal.Config{
+		LinkSystem:                     *ls,
+		LinkTargetNodePrototypeChooser: func(l datamodel.Link, lc linking.LinkContext) (datamodel.NodePrototype, error) { return protoFor(l), nil },
+	}}
+	err = prog.WalkMatching(rootNode, sel, func(p traversal.Progress, n datamodel.Node) error {
+		matched = append(matched, n)
+		return nil
+	})
+	verifrt.Assert(err == nil, "walk:no-error")
+	if variant == 4 {
+		verifrt.Assert(len(matched) == 1, "walk:exactly-the-named-entity")
+		if len(matched) == 1 {
+			b, err := matched[0].AsBytes()
+			verifrt.Assert(err == nil && len(b) == 1 && b[0] == 'B', "walk:file-match-carries-exact-bytes")
+		}
+		verifrt.Reach("present")
+	} else {
+		verifrt.Assert(len(matched) == 0, "walk:absent-path-matches-nothing")
+		verifrt.Reach("absent")
 	}
 	verifrt.Reach("end")
 }
